@@ -8,6 +8,8 @@ import json, os, subprocess, sys, time
 
 VERIF = os.path.dirname(os.path.dirname(os.path.abspath(__file__)))
 args = sys.argv[1:]
+own_only = "--own" in args
+args = [a for a in args if a != "--own"]
 props = None
 if args and args[0] == "--props":
     props = args[1].split(",")
@@ -44,13 +46,15 @@ for s in seeds:
             return p, {"exit": c.returncode, "violations": c.stdout.count("VIOLATION property="), "rules": sorted(set(k.split(" ")[1] for k in keys))[:6], "keys": bad,
                        "unusable": [l for l in (c.stdout + c.stderr).splitlines() if "CHECK-UNUSABLE" in l][:1]}
         from concurrent.futures import ThreadPoolExecutor
+        run_props = [s.split("-")[0]] if own_only else props
         with ThreadPoolExecutor(max_workers=10) as ex:
-            for p, res in ex.map(one, props):
+            for p, res in ex.map(one, run_props):
                 row[p] = res
         own = s.split("-")[0]
-        caught = [p for p in props if row.get(p, {}).get("exit") == 1]
-        unusable = [p for p in props if row.get(p, {}).get("exit") == 2]
+        caught = [p for p in (run_props if own_only else props) if row.get(p, {}).get("exit") == 1]
+        unusable = [p for p in (run_props if own_only else props) if row.get(p, {}).get("exit") == 2]
         print("%-8s own=%s caught_by=%s%s" % (s, "YES" if own in caught else ("n/a" if own not in props else "no"), caught, (" unusable=" + str(unusable)) if unusable else ""))
     finally:
         subprocess.run("git -C /repo checkout -- . && git -C /repo clean -fdq -- src tools", shell=True)
-json.dump(results, open(respath, "w"), indent=1, sort_keys=True)
+if not own_only:
+    json.dump(results, open(respath, "w"), indent=1, sort_keys=True)
